@@ -21,8 +21,8 @@ func rawRequest(w *World, op Op) {
 		}
 	}
 	rs := reqSpec{method: rq.Method, path: rq.Path, query: rq.Query, hdr: hdr, addr: rq.Addr}
-	if rq.Body != "" || rq.CL != 0 {
-		rs.body = []byte(rq.Body)
+	if len(rq.Body) > 0 || rq.CL != 0 {
+		rs.body = append([]byte{}, rq.Body...)
 	}
 	if rq.CL != 0 {
 		cl := rq.CL
